@@ -16,11 +16,14 @@ func init() {
 				"(1) the only event built in the backend with a constant Create operation is sent under 'name not seen before', and on every non-error continuation the name is then marked seen (so a second directory change does not report it again); " +
 				"(2) adding a watch never sends an event (entries that exist when a directory is added are marked seen silently) - no event-send call is reachable from Add at all; " +
 				"(3) for an event with Rename or Remove the reader clears the 'seen' mark of that name (a re-created name is new again), and for Remove of a non-directory it re-checks the name through the same create-if-new function; " +
-				"(4) the translator reports under the link name when the watch was added through a symlink. " +
-				"NOT decided (most of the behavioural statement): the directory diff over histories, burst behaviour, the relative order of Remove and Create - these depend on listing results and kevent timing, and no simulated kernel is run (that would be a different technique).",
+				"(4) the translator reports under the link name when the watch was added through a symlink; " +
+				"(5) the fflags -> Op translation is the documented table (shared with C15: Write, Chmod, Remove, Rename of entries are all reported); " +
+				"(6) every release of a watch (path-table delete, from Remove or from the reader) also clears that name's 'seen' mark under the same condition; " +
+				"(7) a Create synthesised under a Remove of the translated event is sent after that Remove on every path (Remove followed by Create). " +
+				"NOT decided (most of the behavioural statement): the directory diff over histories, burst behaviour, kevent order - these depend on listing results and kevent timing, and no simulated kernel is run (that would be a different technique).",
 			Rule:        "one obligation per synthetic-Create send, per seen-table update/delete site, per reader branch, per translator store",
 			Assumptions: []string{"go/types + go/ssa"},
-			MinObl:      7,
+			MinObl:      10,
 		},
 		Configs: tiered(kqueueQuick, kqueueAll),
 		Run:     runC18,
@@ -119,11 +122,11 @@ func runC18(p *Program, e *Engine, r *Result, tier string) {
 		okMark := false
 		mw := "no update of the seen table in " + shortFn(call.Parent())
 		if !mark.isFalse() {
-			// T: this send succeeded, and every later package-local call in the function that returns an error returned nil
+			// T: this send succeeded, and every package-local call of this activation that returns an error returned nil
 			at, neg := v.Ctx.atom(call)
 			T := v.Cond.andLit(Lit{A: at, Neg: neg})
 			for _, u := range w.Visits {
-				if u.Ctx != v.Ctx || u.Seq <= v.Seq {
+				if u.Ctx != v.Ctx || u.Seq == v.Seq {
 					continue
 				}
 				if c2, ok := u.Instr.(*ssa.Call); ok {
@@ -264,6 +267,130 @@ func runC18(p *Program, e *Engine, r *Result, tier string) {
 		}
 	}
 	a.R.ob("C18.4", "translator:link-name", "events for a watch added through a symlink are named after the link", "-", linkOK, "")
+	// (5) Write, Chmod, Remove and Rename of entries are reported: the translation table is the documented one (shared with C15)
+	c15Kqueue(a)
+	for i := range a.R.Obligations {
+		if a.R.Obligations[i].Rule == "C15.kqueue" {
+			a.R.Obligations[i].Rule = "C18.5"
+			a.R.Obligations[i].Key = "C18.5|" + strings.TrimPrefix(a.R.Obligations[i].Key, "C15.kqueue|")
+		}
+	}
+	// (6) when a watch's descriptor is released its name's 'seen' mark goes with it, unconditionally: afterwards nothing
+	// hears about that file any more, so nobody could clear the mark when the name disappears and comes back
+	for _, root := range []*ssa.Function{ro.API["Remove"], reader} {
+		if root == nil {
+			continue
+		}
+		rw := a.walk(root)
+		seenDel := map[string]DNF{}
+		for _, v := range rw.Visits {
+			if args, ok := isBuiltinCall(v.Instr, "delete"); ok && v.Ctx.fieldOfValue(args[0]) == seenT {
+				k := stripIDs(v.Ctx.path(args[1]))
+				seenDel[k] = seenDel[k].or(v.Cond)
+			}
+		}
+		done := map[string]bool{}
+		for _, v := range rw.Visits {
+			args, ok := isBuiltinCall(v.Instr, "delete")
+			if !ok || v.Ctx.fieldOfValue(args[0]) != kf.pathTable {
+				continue
+			}
+			k := stripIDs(v.Ctx.path(args[1]))
+			key := sprintf("%s:release-clears-seen(%s)", shortFn(root), tail(stripCallArgs(k), 60))
+			if done[key] {
+				continue
+			}
+			done[key] = true
+			okc, wit := false, "no delete of the seen mark for this name in this calling context"
+			if d, have := seenDel[k]; have {
+				h, ctr, err := implies(v.Cond, d)
+				if err != nil {
+					a.R.fail("%v", err)
+				}
+				okc, wit = h, "seen mark deleted whenever the path entry is"
+				if !h {
+					wit = "the seen mark survives the release when " + stripIDs(ctr)
+				}
+			}
+			a.R.ob("C18.6", key, "releasing a watch (path-table delete) also clears the name's 'seen' mark, so that the name is new again if it comes back", a.P.instrPos(v.Instr), okc, wit)
+		}
+	}
+	c18RemoveBeforeCreate(a, "C18.7")
+}
+
+// c18RemoveBeforeCreate: a synthetic Create that the reader derives from a kevent reporting Remove (the removed name
+// was taken over by another file) is sent after the Remove itself: "Remove followed by Create".
+func c18RemoveBeforeCreate(a *An, rule string) {
+	ro := a.Ro
+	_, opBy := opNames(a)
+	reader := ro.Readers[0]
+	w := a.walk(reader)
+	trs := findTranslators(a)
+	if len(trs) != 1 {
+		a.R.fail("anchor unresolved: translator (found %d)", len(trs))
+		return
+	}
+	// sends of the translator's event, and sends of events built with a constant operation
+	var translated, synthetic []*Visit
+	for _, v := range w.Visits {
+		call, ok := v.Instr.(*ssa.Call)
+		if !ok {
+			continue
+		}
+		cal := v.Ctx.calleeOf(&call.Call)
+		if cal == nil || !ro.isSendEvent(cal) {
+			continue
+		}
+		arg := call.Call.Args[len(call.Call.Args)-1]
+		fromTr := false
+		for _, e := range valueEdges(v.Ctx, arg, dnfTrue()) {
+			ev := e.V
+			if ld, ok := ev.(*ssa.UnOp); ok {
+				if rv, _ := e.Ctx.resolve(ld); rv != nil {
+					ev = rv
+				}
+			}
+			if c2, ok := ev.(*ssa.Call); ok && e.Ctx.calleeOf(&c2.Call) == trs[0].fn {
+				fromTr = true
+			}
+			if strings.Contains(stripIDs(e.Ctx.path(e.V)), shortFn(trs[0].fn)) {
+				fromTr = true
+			}
+		}
+		if fromTr {
+			translated = append(translated, v)
+		} else {
+			synthetic = append(synthetic, v)
+		}
+	}
+	if len(translated) == 0 {
+		a.R.fail("anchor unresolved: the reader's send of the translated event")
+		return
+	}
+	n := 0
+	for _, s := range synthetic {
+		// only those derived from a kevent that reports Remove
+		underRemove, _ := s.Cond.everyConj(func(c Conj) bool {
+			return c.has(func(l Lit) bool {
+				return l.A.Kind == AkBit && !l.Neg && l.A.Bits == opBy["Remove"] && strings.HasSuffix(l.A.Subj, ".Op")
+			})
+		})
+		if !underRemove {
+			continue
+		}
+		n++
+		first := false
+		for _, t := range translated {
+			if precedesAlways(t, s) {
+				first = true
+			}
+		}
+		a.R.ob(rule, "remove-before-create@"+shortFn(s.Instr.Parent()), "a Create synthesised because a removed name was taken over by another file is sent after the Remove of that name", a.P.instrPos(s.Instr), first,
+			sprintf("%d send(s) of the translated event in the reader; one of them must come first on every path to this send", len(translated)))
+	}
+	if n == 0 {
+		a.R.ob(rule, "remove-before-create", "the reader re-checks a removed name (synthetic Create under Remove)", a.P.pos(reader.Pos()), false, "no synthetic send under a Remove of the translated event found")
+	}
 }
 
 // readsTable: fn looks table t up, directly or through package-local helpers it hands the table to.
